@@ -233,6 +233,10 @@ func scopesC05(thorough bool) []Scope {
 		Scope{Name: "H-walk-3x2", GS: synthGS(0, 2, [2]int64{6, 6}), Spec: lat.Spec{Prefix: [][]ref.P{frame}, Points: lat.Centres(3, 2), MinK: 1, MaxK: k(6, 8), Repeats: true, NoStutter: true}, IDSets: one, Cfgs: allCfgs},
 		Scope{Name: "H-any-2x2", GS: synthGS(0, 2, [2]int64{6, 6}), Spec: lat.Spec{Prefix: [][]ref.P{frame}, Points: lat.Window(2, 2, 2), MinK: 1, MaxK: k(4, 5), Repeats: true}, IDSets: one, Cfgs: keepCfgs},
 	)
+	// holes and several tile matrices together: the keep / no-keep differential per tile matrix when the shell
+	// collapses at the coarse id but not at the fine one
+	scs = append(scs, Scope{Name: "L-multi-holes", GS: synthGS(2, 2, [2]int64{28, 28}), Spec: lat.Spec{Points: scale(lat.Window(2, 2, 2), 4), MaxK: k(3, 4), Valid: true, MaxHoles: 1, HoleMaxK: 3},
+		IDSets: [][]int{{0, 2}, {1, 2}, {0, 1, 2}}, Cfgs: allCfgs})
 	scs = append(scs, kmpScope(thorough))
 	return append(scs, scopesRealBlocks(thorough)...)
 }
